@@ -117,6 +117,12 @@ def module_env(tree):
             for t in st.targets:
                 if isinstance(t, ast.Name):
                     note(t.id, st.value if len(st.targets) == 1 else None)
+                elif isinstance(t, (ast.Tuple, ast.List)) and isinstance(st.value, (ast.Tuple, ast.List)) \
+                        and len(st.targets) == 1 and len(t.elts) == len(st.value.elts) \
+                        and all(isinstance(x, ast.Name) for x in t.elts) \
+                        and not any(isinstance(x, ast.Starred) for x in st.value.elts):
+                    for x, v in zip(t.elts, st.value.elts):     # `A, B = 1, 2`
+                        note(x.id, v)
                 else:
                     for n in ast.walk(t):
                         if isinstance(n, ast.Name):
